@@ -194,3 +194,26 @@ MUTANTS = [
     ("CryptContext.verify: None hash skips the dummy verify", CTX, "            self.dummy_verify()\n            return False\n", "            return False\n", "refute"),
     ("CryptContext.enable re-enables through the wrong branch", CTX, "        if record.is_disabled:\n            # XXX: should we throw", "        if not record.is_disabled:\n            # XXX: should we throw", "refute"),
 ]
+
+# ---- which disabled hasher a context uses: the FIRST one in the scheme list (the one identification will name, too) --------------
+from pyvc.contract import Bool as _Bool, Contract as _Contract, Obj as _Obj  # noqa: E402
+from pyvc.values import SList as _SList, SObj as _SObj, SStub as _SStub  # noqa: E402
+
+
+def _dr_setup(it, args):
+    recs = [_SObj(f"record{i}", fields={"is_disabled": _Bool().make(it, f"record{i}.is_disabled"), "index": i}) for i in range(3)]
+    args["self"].fields["_get_record_list"] = _SStub(lambda i, a, k: _SList(list(recs)), "_get_record_list")
+    it.run.ghost["recs"] = recs
+    return {f"d{i}": r.fields["is_disabled"] for i, r in enumerate(recs)}
+
+
+CONTRACTS.append(_Contract(
+    "_CryptConfig.disabled_record", "passlib/context.py::_CryptConfig.disabled_record",
+    params={"self": _Obj()},
+    setup=_dr_setup,
+    raises_iff={"RuntimeError": "not d0 and not d1 and not d2"},
+    ensures=[("disable() uses the first disabled hasher of the scheme list -- the same one identification attributes a disabled string to",
+              lambda it, env: it.to_zbool(it.truth(it.cmp_vals("==", it.resolve(env.lookup("result")).fields["index"], it.spec_eval("0 if d0 else (1 if d1 else 2)", env)))))],
+    descr="three schemes, each a disabled hasher or not",
+))
+MUTANTS.append(("disabled_record picks the last disabled hasher", "passlib/context.py", "        for record in self._get_record_list(None):\n            if record.is_disabled:\n                return record", "        for record in reversed(self._get_record_list(None)):\n            if record.is_disabled:\n                return record", "refute", "disabled_record"))
